@@ -17,6 +17,7 @@ const (
 	fRecvDataErr  // Recv -> (data, injected error)
 	fSendErrLost  // Send -> injected error, record not delivered
 	fSendErrAfter // Send -> injected error, record delivered
+	fRecvErrAgain // a later Recv on a channel that has broken for good (reported to OnFault only)
 )
 
 var faultNames = map[int]string{fRecvErr: "recv-err", fRecvDataEOF: "recv-data+eof", fRecvDataErr: "recv-data+err", fSendErrLost: "send-err-lost", fSendErrAfter: "send-err-delivered"}
@@ -50,6 +51,10 @@ type End struct {
 	NSend, NRecv, NClose          int
 	NSendFault                    int
 	NSendClosed                   int   // Send calls made after this end had been closed
+	StickyRecvErr                 bool  // once a Recv has failed (fRecvErr) every later Recv fails too
+	errStuck                      bool
+	NRecvStuck                    int
+	SendAfterClose                bool // Close does not disable the write side (a detached user of a shared transport)
 	FaultedSends                  []int // indexes (1-based, as NSend) of the Send calls that reported an injected error
 	Overlaps                      []string
 
@@ -137,7 +142,7 @@ func (e *End) Send(b []byte) error {
 	f := e.faultFor(true)
 	var err error
 	switch {
-	case e.closed:
+	case e.closed && !e.SendAfterClose:
 		e.NSendClosed++ // handed to an end that is already closed: nothing is transmitted
 		err = fmt.Errorf("send on closed channel end %s", e.Name)
 	case f == fSendErrLost:
@@ -185,9 +190,18 @@ func (e *End) Recv() ([]byte, error) {
 	if e.eofStuck {
 		rt.Yield("sim:recv:eof")
 		err = io.EOF
+	} else if e.errStuck && !(e.closed && e.CloseUnblocks) {
+		// a channel that has broken for good: every Recv fails from now on
+		rt.Yield("sim:recv:stuck")
+		e.NRecvStuck++
+		if e.OnFault != nil {
+			e.OnFault(fRecvErrAgain)
+		}
+		err = ErrInjected
 	} else if f == fRecvErr {
 		rt.Yield("sim:recv:fault")
 		e.fired(f)
+		e.errStuck = e.StickyRecvErr
 		err = ErrInjected
 	} else {
 		rt.Block("sim:recv", func() bool {
